@@ -9,6 +9,7 @@ empty `Vec`s and pass-through wrappers (model Core/TreeHint).
 -/
 import TracingModel.Props.C08S
 import TracingModel.Core.TreeHint
+import TracingModel.Gen.Forwarding
 
 namespace C08
 open TM.TreeHint TM.Reload TM.Filtering TM.FilterExpr
@@ -65,5 +66,10 @@ EITHER branch, the whole group counted as absent and the stack published OFF —
 theorem f33_repaired :
     (andThen noneV (andThen (andThen plainV noneV) plainV)).hint = none ∧
     (andThen noneV (andThen (andThen plainV noneV) plainV)).none = false := by decide
+
+/-- a `Vec` of subscribers counts as per-layer filtered only if EVERY member does — absent members included (from
+subscribe/mod.rs on every run): the enclosing `Layered` decides ONCE, when it is built, how it combines interests, and a member that
+is absent then may be switched on later through a reload handle -/
+theorem vec_psf_needs_every_member : TM.Gen.Forwarding.vecPsfNeedsEveryMember = true := by decide
 
 end C08
